@@ -15,6 +15,7 @@ from mc.interp import var_names, param_names, natural_key
 from mc.minimise import minimise, size
 from mc.oracle import grid_points, ref_value, close, point_dict
 from checks.common import InPlace
+from mc.callers import LiveMapping
 
 ID = "C01"
 LEVEL = "model_checking"
@@ -185,7 +186,7 @@ def check_recipe(r, tier, seed, rep=None, want=None):
             clear_lru(compiler)
         if rep:
             rep.transitions += 2
-    closures.append(("evaluate", "-", lambda pd: e.evaluate(pd)))
+    closures.append(("evaluate", "-", LiveMapping(e.evaluate)))
     # non-initial state: the same formula built as a DAG (shared sub-expression objects) whose sub-expressions
     # were all compiled before the root (their closures sit in the LRU cache when the root is compiled)
     if menu and size(r) > 1:
@@ -204,7 +205,7 @@ def check_recipe(r, tier, seed, rep=None, want=None):
             if isinstance(root, Expression):
                 f4 = compiler.compile_expression(root, Vs)
                 closures.append(("dag-bottom-up", vlab, lambda pd, f=InPlace(f4), vn=vn: f(np.array([pd.get(n, 0.125) for n in vn]))))
-                closures.append(("dag-evaluate", "-", lambda pd, e2=root: e2.evaluate(pd)))
+                closures.append(("dag-evaluate", "-", LiveMapping(root.evaluate)))
                 # the deep-tree builder on the DAG (interior nodes shared by several parents)
                 old_t = compiler._RECURSION_THRESHOLD
                 try:
